@@ -428,7 +428,11 @@ def check_C16(ctx):
                      f"with pest_optimizer = false; every rule that has accessors x every string of length <= {maxlen} over the grammar's alphabet (+ random "
                      "longer ones); an evaluation = one accessor call on one accepted input; non-trivial when the accessor returned at least one reference; "
                      "distinct by (grammar, variant, rule, accessor, input)")
-    res = suite_getters(ctx.tier, ctx.seed)
+    evaluate(ctx, suite_getters(ctx.tier, ctx.seed))
+
+
+def evaluate(ctx, res):
+    """Ties and oracles on a finished suite run (separate so that a run can be re-judged, e.g. against a mutated tree)."""
     meta = res.meta
     # ---- T-gen: listing of the model vs the functions the generator emits
     n_fn, n_bad = 0, 0
